@@ -115,6 +115,14 @@ pub fn plan_for(prop: &str, tier: Tier, kind: Kind) -> Plan {
     if wgt >= 40 && tier <= Tier::Quick {
         p.g9 = Some(0);
     }
+    // adjacent-pair sweeps for the cheap per-buffer properties
+    if wgt == 1 && !matches!(prop, "C09" | "C19" | "C03") {
+        p.g10 = match tier {
+            Tier::Quick => 1,
+            Tier::Thorough => 2,
+            _ => 0,
+        };
+    }
     // property-specific emphasis
     match prop {
         "C09" => {
